@@ -260,6 +260,7 @@ type qx struct {
 	steps      int
 	overflow   bool
 	closureFns []*ssa.Function
+	memberTab  map[*ssa.Global]string // [N]bool tables built at init from a constant string: tab[K[i]] = true
 }
 
 func (q *qx) problem(pos token.Pos, format string, args ...any) {
@@ -323,6 +324,18 @@ func (q *qx) buildAlphabet(roots []*ssa.Function) {
 				for _, a := range x.Call.Args {
 					if cs, ok := a.(*ssa.Const); ok && cs.Value != nil && cs.Value.Kind() == constant.String {
 						sets = append(sets, constant.StringVal(cs.Value))
+					}
+				}
+			}
+		})
+	}
+	q.memberTab = memberTables(q.pkg)
+	for _, fn := range cl {
+		allInstrs(fn, func(in ssa.Instruction) {
+			if ia, ok := in.(*ssa.IndexAddr); ok {
+				if g, ok := ia.X.(*ssa.Global); ok {
+					if k, ok := q.memberTab[g]; ok {
+						sets = append(sets, k)
 					}
 				}
 			}
@@ -706,6 +719,17 @@ func (q *qx) step(st *qstate) []*qstate {
 				if v, ok := f.cells[al]; ok && v.k != qUnknown {
 					f.env[x] = v
 					return one
+				}
+			}
+			// a read of a membership table built at init from a constant string
+			if ia, ok := x.X.(*ssa.IndexAddr); ok {
+				if g, ok := ia.X.(*ssa.Global); ok {
+					if k, ok := q.memberTab[g]; ok {
+						if iv := q.eval(f, ia.Index); iv.k == qInt || iv.k == qByte {
+							f.env[x] = qval{k: qBool, b: iv.i >= 0 && iv.i < 256 && strings.IndexByte(k, byte(iv.i)) >= 0}
+							return one
+						}
+					}
 				}
 			}
 			switch {
@@ -1737,4 +1761,105 @@ func posName(p int8) string {
 		return "≥4"
 	}
 	return fmt.Sprint(p)
+}
+
+// memberTables recognises package variables of the form
+//
+//	var tab = func() (t [256]bool) { for i := 0; i < len(K); i++ { t[K[i]] = true }; return t }()
+//
+// with K a constant string: a membership table whose contents are K's bytes.
+// Anything else about the initialiser (a second store, a non-constant string, a
+// value other than true) leaves the variable unrecognised.
+func memberTables(pkg *ssa.Package) map[*ssa.Global]string {
+	out := map[*ssa.Global]string{}
+	if pkg == nil {
+		return out
+	}
+	initFn := pkg.Func("init")
+	if initFn == nil {
+		return out
+	}
+	allInstrs(initFn, func(in ssa.Instruction) {
+		st, ok := in.(*ssa.Store)
+		if !ok {
+			return
+		}
+		g, ok := st.Addr.(*ssa.Global)
+		if !ok {
+			return
+		}
+		arr, ok := g.Type().(*types.Pointer).Elem().Underlying().(*types.Array)
+		if !ok {
+			return
+		}
+		if b, ok := arr.Elem().Underlying().(*types.Basic); !ok || b.Kind() != types.Bool {
+			return
+		}
+		call, ok := st.Val.(*ssa.Call)
+		if !ok {
+			return
+		}
+		var f *ssa.Function
+		switch v := call.Call.Value.(type) {
+		case *ssa.Function:
+			f = v
+		case *ssa.MakeClosure:
+			f, _ = v.Fn.(*ssa.Function)
+		}
+		if f == nil || f.Blocks == nil || len(f.Params) != 0 {
+			return
+		}
+		k, nStores, okShape := "", 0, true
+		allInstrs(f, func(in2 ssa.Instruction) {
+			switch y := in2.(type) {
+			case *ssa.Store:
+				ia, isIA := y.Addr.(*ssa.IndexAddr)
+				if !isIA {
+					if _, isAlloc := y.Addr.(*ssa.Alloc); !isAlloc {
+						okShape = false
+					}
+					return
+				}
+				if _, isAlloc := ia.X.(*ssa.Alloc); !isAlloc {
+					okShape = false
+					return
+				}
+				cv, isK := y.Val.(*ssa.Const)
+				if !isK || cv.Value == nil || cv.Value.String() != "true" {
+					okShape = false
+					return
+				}
+				idx := ia.Index
+				if c2, ok := idx.(*ssa.Convert); ok {
+					idx = c2.X
+				}
+				var strX ssa.Value
+				switch lk := idx.(type) {
+				case *ssa.Lookup:
+					strX = lk.X
+				case *ssa.Index:
+					strX = lk.X
+				}
+				if strX == nil {
+					okShape = false
+					return
+				}
+				ks, isK2 := strX.(*ssa.Const)
+				if !isK2 || ks.Value == nil || ks.Value.Kind() != constant.String {
+					okShape = false
+					return
+				}
+				k = constant.StringVal(ks.Value)
+				nStores++
+			case *ssa.Call:
+				if b, ok := y.Call.Value.(*ssa.Builtin); !ok || b.Name() != "len" {
+					okShape = false
+				}
+			}
+		})
+		if okShape && nStores == 1 && k != "" {
+			out[g] = k
+		}
+	})
+	return out
 }
